@@ -286,7 +286,7 @@ theorem isPrefixDefinedChain_eq (chain : List Tree) (p : Nat) :
 theorem pfnDecls_nil (ns : Nat) (seen : List Nat) : pfnDecls ns seen [] = .cont seen := rfl
 
 theorem pfnDecls_cons_seen {ns : Nat} {seen : List Nat} {k v : Nat} {rest : List (Nat × Nat)}
-    (h : k ∈ seen) : pfnDecls ns seen ((k, v) :: rest) = .ret none := by
+    (h : k ∈ seen) : pfnDecls ns seen ((k, v) :: rest) = pfnDecls ns seen rest := by
   simp [pfnDecls, h]
 
 theorem pfnDecls_cons_hit {ns : Nat} {seen : List Nat} {k v : Nat} {rest : List (Nat × Nat)}
@@ -317,7 +317,7 @@ theorem pfnDecls_append (ns : Nat) (l1 l2 : List (Nat × Nat)) : ∀ (seen : Lis
     obtain ⟨k, v⟩ := d
     intro seen
     by_cases h : k ∈ seen
-    · simp [pfnDecls_cons_seen h, pfnThen]
+    · simp only [List.cons_append, pfnDecls_cons_seen h, ih]
     · by_cases hv : v = ns
       · simp [pfnDecls_cons_hit h hv, pfnThen]
       · simp only [List.cons_append, pfnDecls_cons_miss h hv, ih]
@@ -346,7 +346,12 @@ theorem pfnDecls_sound (ns : Nat) (l : List (Nat × Nat)) : ∀ (seen : List Nat
     obtain ⟨k, v⟩ := d
     intro seen p h
     by_cases hk : k ∈ seen
-    · simp [pfnDecls_cons_seen hk] at h
+    · rw [pfnDecls_cons_seen hk] at h
+      obtain ⟨h1, h2⟩ := ih _ _ h
+      have : (p == k) = false := by
+        have : p ≠ k := fun hpk => h1 (hpk ▸ hk)
+        simpa using this
+      exact ⟨h1, by simp [List.lookup_cons, this, h2]⟩
     · by_cases hv : v = ns
       · rw [pfnDecls_cons_hit hk hv] at h
         simp only [PfnStep.ret.injEq, Option.some.injEq] at h
@@ -358,65 +363,32 @@ theorem pfnDecls_sound (ns : Nat) (l : List (Nat × Nat)) : ∀ (seen : List Nat
         have : (p == k) = false := by simpa using h1.1
         exact ⟨h1.2, by simp [List.lookup_cons, this, h2]⟩
 
-/-- The declarations the loop visits until it meets the first one binding something to `ns`
-    (that one included). -/
-def visitedUntil (ns : Nat) : List (Nat × Nat) → List (Nat × Nat)
-  | [] => []
-  | (k, v) :: rest => if v == ns then [(k, v)] else (k, v) :: visitedUntil ns rest
-
-/-- Completeness under the exact guard of the early `return None`: if no prefix is declared
-    twice among the declarations visited until the first binding to `ns`, that binding is found. -/
+/-- Completeness: a prefix not seen before whose first declaration binds it to `ns` makes the
+    loop return some prefix (shadowed prefixes are skipped, not fatal). -/
 theorem pfnDecls_complete (ns : Nat) (l : List (Nat × Nat)) : ∀ (seen : List Nat),
-    (∃ k, (k, ns) ∈ l) →
-    ((visitedUntil ns l).map Prod.fst).Nodup →
-    (∀ k ∈ (visitedUntil ns l).map Prod.fst, k ∉ seen) →
-    ∃ p, pfnDecls ns seen l = .ret (some p) := by
+    (∃ p, p ∉ seen ∧ l.lookup p = some ns) → ∃ q, pfnDecls ns seen l = .ret (some q) := by
   induction l with
   | nil => intro seen h; simp at h
   | cons d rest ih =>
     obtain ⟨k, v⟩ := d
-    intro seen hex hnd hdis
-    by_cases hv : v = ns
-    · have hk : k ∉ seen := hdis k (by simp [visitedUntil, hv])
-      exact ⟨k, pfnDecls_cons_hit hk hv⟩
-    · have hb : (v == ns) = false := by simpa using hv
-      simp only [visitedUntil, hb, Bool.false_eq_true, ↓reduceIte, List.map_cons, List.nodup_cons,
-        List.mem_cons, forall_eq_or_imp] at hnd hdis
-      rw [pfnDecls_cons_miss hdis.1 hv]
-      apply ih
-      · obtain ⟨k', hk'⟩ := hex
-        simp only [List.mem_cons, Prod.mk.injEq] at hk'
-        rcases hk' with ⟨_, h2⟩ | h2
-        · exact absurd h2.symm hv
-        · exact ⟨k', h2⟩
-      · exact hnd.2
-      · intro k' hk' hmem
-        simp only [List.mem_cons] at hmem
-        rcases hmem with h1 | h1
-        · subst h1; exact hnd.1 hk'
-        · exact hdis.2 k' hk' h1
-
-/-- Conversely the guard is necessary: a found prefix means nothing visited was repeated. -/
-theorem pfnDecls_ret_some_guard (ns : Nat) (l : List (Nat × Nat)) : ∀ (seen : List Nat) (p : Nat),
-    pfnDecls ns seen l = .ret (some p) →
-    ((visitedUntil ns l).map Prod.fst).Nodup ∧ (∀ k ∈ (visitedUntil ns l).map Prod.fst, k ∉ seen) := by
-  induction l with
-  | nil => intro seen p h; simp [pfnDecls_nil] at h
-  | cons d rest ih =>
-    obtain ⟨k, v⟩ := d
-    intro seen p h
+    intro seen ⟨p, hp, hl⟩
     by_cases hk : k ∈ seen
-    · simp [pfnDecls_cons_seen hk] at h
+    · rw [pfnDecls_cons_seen hk]
+      have hpk : (p == k) = false := by
+        have : p ≠ k := fun h => hp (h ▸ hk)
+        simpa using this
+      simp only [List.lookup_cons, hpk] at hl
+      exact ih seen ⟨p, hp, hl⟩
     · by_cases hv : v = ns
-      · simp [visitedUntil, hv, hk]
-      · have hb : (v == ns) = false := by simpa using hv
-        rw [pfnDecls_cons_miss hk hv] at h
-        obtain ⟨h1, h2⟩ := ih _ _ h
-        simp only [visitedUntil, hb, Bool.false_eq_true, ↓reduceIte, List.map_cons, List.nodup_cons,
-          List.mem_cons, forall_eq_or_imp]
-        refine ⟨⟨?_, h1⟩, hk, ?_⟩
-        · intro hmem; exact (h2 k hmem) (by simp)
-        · intro k' hk' hs; exact (h2 k' hk') (by simp [hs])
+      · exact ⟨k, pfnDecls_cons_hit hk hv⟩
+      · rw [pfnDecls_cons_miss hk hv]
+        by_cases hpk : p = k
+        · subst hpk
+          simp only [List.lookup_cons_self, Option.some.injEq] at hl
+          exact absurd hl hv
+        · have hb : (p == k) = false := by simpa using hpk
+          simp only [List.lookup_cons, hb] at hl
+          exact ih (k :: seen) ⟨p, by simp [hpk, hp], hl⟩
 
 /-! ### Facts about the specification -/
 
